@@ -72,8 +72,11 @@ def rand_int_tree(rng, depth, big):
         return ("I", rng.randint(-20, 20))
     if r < 0.3:
         return ("U", "neg", rand_int_tree(rng, depth - 1, big))
-    if r < 0.36:
+    if r < 0.33:
         return ("U", "sgn", rand_int_tree(rng, depth - 1, big))
+    if r < 0.36:
+        # AbsExpression is an exported node class (not reachable from text)
+        return ("U", "abs", rand_int_tree(rng, depth - 1, big))
     if r < 0.42:
         return ("U", "fact", ("I", rng.randint(0, 60 if big else 12)))
     if r < 0.55:
@@ -92,7 +95,7 @@ def rand_mixed_tree(rng, depth):
             return ("I", rng.randint(-12, 12))
         return ("F", Fraction(rng.choice([1, 3, 5, 7, -1, -5, 25, 1]), rng.choice([2, 4, 8, 10, 5])))
     if r < 0.3:
-        return ("U", rng.choice(["neg", "sgn", "neg"]), rand_mixed_tree(rng, depth - 1))
+        return ("U", rng.choice(["neg", "sgn", "neg", "abs"]), rand_mixed_tree(rng, depth - 1))
     if r < 0.34:
         return ("U", "fact", ("I", rng.randint(-2, 10)))
     if r < 0.44:
@@ -185,6 +188,8 @@ def z_denote(t, env):
             return -a
         if t[1] == "sgn":
             return (a > 0) - (a < 0)
+        if t[1] == "abs":
+            return -a if a < 0 else a
         if a < 0:
             raise ArithmeticError
         return math.factorial(a)
